@@ -1036,7 +1036,15 @@ class Variable(CanBehaveLikeAVariable[T]):
                     {**sources, self._id_: HashedValue(v)}, False, self
                 )
         elif self._should_be_instantiated_:
-            yield from self._instantiate_using_child_vars_and_yield_results_(sources)
+            # as an operand (e.g. of a comparison) a falsy result is a value like any other, only where the variable is
+            # itself a condition its truth value counts; decided here, before the generator is suspended
+            is_condition = (
+                isinstance(self._parent_, LogicalOperator)
+                or self is self._conditions_root_
+            )
+            yield from self._instantiate_using_child_vars_and_yield_results_(
+                sources, is_condition
+            )
         else:
             raise ValueError("Cannot evaluate variable.")
 
@@ -1045,7 +1053,7 @@ class Variable(CanBehaveLikeAVariable[T]):
         return self._is_inferred_ or self._predicate_type_
 
     def _instantiate_using_child_vars_and_yield_results_(
-        self, sources: Dict[int, HashedValue]
+        self, sources: Dict[int, HashedValue], is_condition: bool = True
     ) -> Iterable[OperationResult]:
         for kwargs in self._generate_combinations_for_child_vars_values_(sources):
             # Build once: unwrapped hashed kwargs for already provided child vars
@@ -1053,7 +1061,9 @@ class Variable(CanBehaveLikeAVariable[T]):
             instance = self._type_(**{k: hv.value for k, hv in bound_kwargs.items()})
             if self._predicate_type_ == PredicateType.SubClassOfPredicate:
                 instance = instance()
-            yield self._process_output_and_update_values_(instance, kwargs)
+            yield self._process_output_and_update_values_(
+                instance, kwargs, is_condition
+            )
 
     def _generate_combinations_for_child_vars_values_(
         self, sources: Optional[Dict[int, HashedValue]] = None
@@ -1083,13 +1093,18 @@ class Variable(CanBehaveLikeAVariable[T]):
             )
 
     def _process_output_and_update_values_(
-        self, instance: Any, kwargs: Dict[str, OperationResult]
+        self,
+        instance: Any,
+        kwargs: Dict[str, OperationResult],
+        is_condition: bool = True,
     ) -> OperationResult:
         """
         Process the predicate/variable instance and get the results.
 
         :param instance: The created instance.
         :param kwargs: The keyword arguments of the predicate/variable.
+        :param is_condition: Whether the variable is evaluated as a condition (its truth value counts) or as an
+         operand (a falsy result is a value like any other).
         :return: The results' dictionary.
         """
         hv = HashedValue(instance)
@@ -1098,7 +1113,7 @@ class Variable(CanBehaveLikeAVariable[T]):
         values = {self._id_: hv}
         for d in kwargs.values():
             values.update(d.bindings)
-        return OperationResult(values, not bool(instance), self)
+        return OperationResult(values, is_condition and not bool(instance), self)
 
     @property
     def _name_(self):
